@@ -302,6 +302,9 @@ def snapshotOps (db : Db) (fs : Fs) (reclaim : Bool) (order : List Bytes) : List
   let name := db.name
   let kf := keysFile name; let vf := valuesFile name
   let old := kf ++ b!".old"
+  -- the values file of a new database is created before anything else (the start-up opens both files of every keys file it finds)
+  let pre0 : List FsOp := if (fs.read vf).isNone then [.create vf] else []
+  let fs := fs.applyOps pre0
   let pre1 : List FsOp := if reclaim && (fs.read kf).isSome then [.rename kf old] else []
   let fs1 := fs.applyOps pre1
   let pre2 : List FsOp := if (fs1.read kf).isNone then [.create kf] else []
@@ -320,6 +323,6 @@ def snapshotOps (db : Db) (fs : Fs) (reclaim : Bool) (order : List Bytes) : List
     [.pwrite mf 0 (le64 db.id), .pwrite mf 8 (le32i (strategyCode db.strategy))]
   let fsEnd := fs4.applyOps (st.ops ++ kflush ++ vflush ++ metaOps)
   let post : List FsOp := if (fsEnd.read old).isSome then [.unlink old] else []
-  pre1 ++ pre2 ++ pre3 ++ pre4 ++ st.ops ++ kflush ++ vflush ++ metaOps ++ post
+  pre0 ++ pre1 ++ pre2 ++ pre3 ++ pre4 ++ st.ops ++ kflush ++ vflush ++ metaOps ++ post
 
 end Nun
